@@ -16,9 +16,10 @@ from twisted.web.http_headers import Headers
 from twisted.web.iweb import UNKNOWN_LENGTH, IBodyProducer
 
 HEADLINE = "TwistedProps.C23.request_deferred_fires_once"
-RULE = ("event scripts for one request on HTTP11ClientProtocol: response streams generated from a grammar (0..2 interim "
-        "1xx responses; status lines with/without phrase, HTTP/1.0/1.1/odd versions; CRLF or bare-LF line ends; obs-fold "
-        "continuation lines; header names in mixed case; framing by Content-Length (single, repeated, comma list, "
+RULE = ("event scripts for one request on HTTP11ClientProtocol: response streams generated from a grammar (0..3 interim "
+        "1xx responses with ANY 1xx code incl. 101/102; status lines with/without phrase, HTTP/1.0/1.1/odd versions; CRLF or "
+        "bare-LF line ends; obs-fold continuation lines; header names in mixed case; header values containing ':' (Date, "
+        "Location, ETag); framing by Content-Length (single, repeated, comma list, "
         "leading zeros, OWS), chunked (extensions, trailers), connection close, 204/304/HEAD, Content-Length: 0; "
         "Connection: close) cut at EVERY truncation point for short responses and at random ones for long ones, delivered "
         "whole / byte-at-a-time / random k-way incl. empty deliveries, with extra bytes after the response; hand-built "
@@ -26,16 +27,33 @@ RULE = ("event scripts for one request on HTTP11ClientProtocol: response streams
         "names, conflicting/invalid Content-Length, unknown Transfer-Encoding, malformed chunk sizes, lines of "
         "16383..16387 bytes, 4300/4301-digit numbers); crossed with GET/HEAD, persistent or not, deliverBody in the "
         "callback / after a later event / after the loss / never, request body still being written (written / failed at "
-        "event k), abort() and cancel() at event k, ConnectionDone or ConnectionLost. distinct = (generator class, "
-        "framing, where the cut falls, delivery shape, request mode, deliver timing, extra events, fire outcome, body end)")
+        "event k, or INSIDE startProducing(): Deferred already fired / failed, or raising inside or outside `Exception`), "
+        "abort() and cancel() at event k, ConnectionDone or ConnectionLost; CHAINS of requests on one persistent connection: "
+        "the request of the case is issued after a generated earlier exchange (any bodiless / Content-Length / chunked "
+        "response, any segmentation) or RE-ENTRANTLY from the earlier request's callback or from the earlier body consumer's "
+        "connectionLost (readBody().addCallback(next request)); a quiescent callback that raises (inside or outside "
+        "`Exception`); a holding transport that reads nothing while paused and hands the queued bytes over from inside "
+        "resumeProducing() with deliverBody() anywhere after the head; the body consumer's callbacks are checked for ORDER "
+        "(makeConnection, dataReceived*, connectionLost, nothing after). distinct = (generator class, framing, where the cut "
+        "falls, delivery shape, request mode incl. earlier exchange / producer mode / callback / transport mode, deliver "
+        "timing, extra events, fire outcome, body end)")
 ASSUMES = [
     "one request at a time per connection (the protocol refuses a second with RequestNotSent); a persistent connection "
-    "that returned to QUIESCENT is in the same state as a fresh one (checked in the tie by the `warm` cases)",
+    "that returned to QUIESCENT is in the same state as a fresh one, also when the next request is issued re-entrantly "
+    "from the earlier request's callback (bodiless response) or from the earlier body consumer's connectionLost "
+    "(checked in the tie by the `warm` cases: the model runs the request of the case on a fresh connection, the real "
+    "code runs it after / from inside a generated earlier exchange, whose own outcome the oracle checks too)",
     "the body consumer and the application callbacks return normally and do not re-enter the protocol, except that "
-    "deliverBody may be called from inside the request Deferred's callback",
+    "deliverBody may be called from inside the request Deferred's callback and the next request may be issued from "
+    "the two places above; the quiescent callback may raise anything",
     "the transport's pauseProducing/resumeProducing/loseConnection never raise (StringTransport(lenient=True), as in "
-    "test_newclient); data may still be delivered after loseConnection (TLS does this), the script decides",
-    "the request body producer, when there is one, writes nothing and finishes or fails when the script says so",
+    "test_newclient); data may still be delivered after loseConnection (TLS does this), the script decides; "
+    "resumeProducing() may deliver queued bytes re-entrantly (holding transport: the model delivers them right after "
+    "the call that resumed, the tie checks that this is the same; bytes still unread when the connection is lost are "
+    "gone and do not count as received)",
+    "the request body producer, when there is one, writes nothing and finishes or fails when the script says so, "
+    "possibly inside startProducing() (fired Deferred, or a raise inside or outside `Exception`: modelled as "
+    "written/failed before the first event)",
     "connectionLost is delivered once, after the last dataReceived (reactor contract)",
     "documented limit: status/header lines of at most 16384 bytes (LineReceiver.MAX_LENGTH). A longer line makes the "
     "parser drop its buffer and call loseConnection (pinned by test_receiveResponseHeadersTooLong: the request fails "
@@ -66,7 +84,12 @@ MANIFEST = {
             "never called) and per framing body_whole_stream_no_body / _content_length (first n bytes; ResponseDone iff n "
             "arrived else ResponseFailed([r,_DataLoss])) / _until_close (PotentialDataLoss) / _chunked (via C22 decode_encode: "
             "the chunk data, ResponseDone) / _chunked_truncated (via C22 data_loss_on_truncation: ResponseFailed([r,_DataLoss])); "
-            "(d) the Response body state machine lemmas. PARTIAL: (b),(c) assume the request already written and no "
+            "(d) the Response body state machine lemmas; "
+            "(e) request_deferred_fires_once_quiescent_raises / _at_most_once_quiescent_raises: (a) over the enlarged space of "
+            "initial states initQ (the application's quiescent callback raises: logged, loseConnection, parser disconnected). "
+            "Chains of requests, producers failing inside startProducing() and the holding transport are event scripts of "
+            "the same model (fresh connection / leading written|failed event / the schedule computed by the driver's "
+            "runHold), so (a) covers them; that these reductions are right is checked by the tie. PARTIAL: (b),(c) assume the request already written and no "
             "abort/cancel/written/failed among the deliveries (there: exactly-once only) and no head line over 16384 bytes; "
             "the bytes of a TRUNCATED chunked body are characterised as the C22 decoder's output on the received prefix; "
             "those remaining cases rest on the differential tie and the wire-map oracle.",
@@ -92,16 +115,37 @@ class _Boom(Exception):
     """what the request body producer fails with"""
 
 
+class _BaseBoom(BaseException):
+    """the same, outside the `Exception` hierarchy (printed under the same name: the wrapped reason is what counts)"""
+
+
+_BaseBoom.__name__ = "_Boom"
+
+
+class _QuiescentBoom(Exception):
+    """what a misbehaving quiescent callback raises"""
+
+
 @implementer(IBodyProducer)
 class _Producer:
     length = UNKNOWN_LENGTH
 
-    def __init__(self):
+    def __init__(self, mode=None):
         self.d = None
         self.stopped = 0
+        self.mode = mode            # None: asynchronous; "raise"/"raise-base": startProducing raises;
+        #                             "failed"/"done": startProducing returns a Deferred that has fired already
 
     def startProducing(self, consumer):
+        if self.mode == "raise":
+            raise _Boom()
+        if self.mode == "raise-base":
+            raise _BaseBoom()
         self.d = Deferred()
+        if self.mode == "done":
+            self.d.callback(None)
+        elif self.mode == "failed":
+            self.d.errback(Failure(_Boom()))
         return self.d
 
     def stopProducing(self):
@@ -115,17 +159,61 @@ class _Producer:
 
 
 class _Body(Protocol):
-    def __init__(self, log):
+    """logs what the body consumer is told, and whether it was told in a legal order:
+    makeConnection, then dataReceived*, then connectionLost, nothing afterwards"""
+
+    def __init__(self, log, on_lost=None):
         self.log = log
+        self.on_lost = on_lost
+
+    def _seq(self, what):
+        st = self.log.setdefault("st", "new")
+        ok = {"made": st == "new", "data": st == "open", "lost": st == "open"}[what]
+        if not ok:
+            self.log.setdefault("order", []).append("%s-when-%s" % (what, st))
+        if what == "made":
+            self.log["st"] = "open"
+        elif what == "lost":
+            self.log["st"] = "closed"
 
     def makeConnection(self, transport):
+        self._seq("made")
         self.log["made"] += 1
 
     def dataReceived(self, data):
+        self._seq("data")
         self.log["data"] += data
 
     def connectionLost(self, reason):
+        self._seq("lost")
         self.log["lost"].append(_reason(reason))
+        if self.on_lost is not None:
+            self.on_lost()
+
+
+class _HoldingTransport(StringTransport):
+    """A transport that, like a real one, reads nothing while it is paused, and hands over what had arrived in the
+    meantime from inside resumeProducing() (as a TLS or otherwise buffering transport does)."""
+
+    def __init__(self):
+        StringTransport.__init__(self, lenient=True)
+        self.pending = []
+        self.fed = 0
+        self.proto = None
+
+    def feed(self, data):
+        if self.producerState == "paused":
+            self.pending.append(data)
+        else:
+            self.fed += len(data)
+            self.proto.dataReceived(data)
+
+    def resumeProducing(self):
+        StringTransport.resumeProducing(self)
+        while self.pending and self.producerState == "producing":
+            data = self.pending.pop(0)
+            self.fed += len(data)
+            self.proto.dataReceived(data)
 
 
 def _reason(f):
@@ -142,26 +230,35 @@ def _reason(f):
     return name
 
 
+def _new_body():
+    return {"made": 0, "data": b"", "lost": []}
+
+
 def _drive(c):
     """Run the script; returns dict of observables."""
-    transport = StringTransport(lenient=True)
+    hold = c.get("resume") == "sync"
+    transport = _HoldingTransport() if hold else StringTransport(lenient=True)
     quiet = []
-    proto = nc.HTTP11ClientProtocol(lambda p: quiet.append(1))
+    qraise = c.get("qraise")
+
+    def quiescent(p):
+        quiet.append(1)
+        if qraise == "exc":
+            raise _QuiescentBoom()
+        if qraise == "base":
+            raise _BaseBoom()
+
+    proto = nc.HTTP11ClientProtocol(quiescent)
     proto.makeConnection(transport)
-    if c.get("warm"):
-        d0 = proto.request(nc.Request(b"GET", b"/", Headers({b"host": [b"h"]}), None, persistent=True))
-        got = []
-        d0.addBoth(got.append)
-        proto.dataReceived(b"HTTP/1.1 200 OK\r\nContent-Length: 2\r\n\r\nok")
-        assert proto._state == "QUIESCENT" and len(got) == 1 and len(quiet) == 1, (proto._state, got, quiet)
-        quiet.clear()
-    producer = _Producer() if c["async"] else None
-    req = nc.Request(b"HEAD" if c["head"] else b"GET", b"/", Headers({b"host": [b"h"]}), producer,
-                     persistent=c["persistent"])
-    body = {"made": 0, "data": b"", "lost": []}
+    if hold:
+        transport.proto = proto
+    mode = c.get("sync")
+    producer = _Producer(mode) if (c["async"] or mode) else None
+    body = _new_body()
     fires = []
     holder = {}
     excs = []
+    warm_bad = []
 
     def deliver():
         if "resp" in holder and not holder.get("delivered"):
@@ -178,14 +275,69 @@ def _drive(c):
                 deliver()
         return None
 
-    d = proto.request(req)
-    d.addBoth(fired)
+    def issue():
+        """issue THE request of the case (once)"""
+        if "d" in holder:
+            return
+        quiet.clear()
+        req = nc.Request(b"HEAD" if c["head"] else b"GET", b"/", Headers({b"host": [b"h"]}), producer,
+                         persistent=c["persistent"])
+        holder["d"] = None
+        holder["d"] = proto.request(req)
+        holder["d"].addBoth(fired)
+
+    warm = c.get("warm")
+    if warm is True:
+        # the fixed warm-up of the first version of this check
+        warm = {"head": False, "at": "after", "segs": [hx(b"HTTP/1.1 200 OK\r\nContent-Length: 2\r\n\r\nok")],
+                "body": hx(b"ok"), "deliver": False}
+    if warm:
+        # an earlier request/response on the same (persistent) connection; the request of the case is issued after it,
+        # or re-entrantly from the first request's callback / from the first body consumer's connectionLost
+        body1 = _new_body()
+        fires1 = []
+        at = warm["at"]
+
+        def fired1(r):
+            fires1.append("F" if isinstance(r, Failure) else "response")
+            if not isinstance(r, Failure):
+                if warm.get("deliver", True):
+                    r.deliverBody(_Body(body1, on_lost=issue if at == "body-lost" else None))
+                if at == "callback":
+                    issue()
+            return None
+
+        d1 = proto.request(nc.Request(b"HEAD" if warm["head"] else b"GET", b"/", Headers({b"host": [b"h"]}), None,
+                                      persistent=True))
+        d1.addBoth(fired1)
+        for seg in warm["segs"]:
+            try:
+                proto.dataReceived(unhx(seg))
+            except Exception as e:
+                warm_bad.append("raised-" + type(e).__name__)
+        if fires1 != ["response"]:
+            warm_bad.append("fires1=%s" % ",".join(fires1))
+        if warm.get("deliver", True) and (body1["made"] != 1 or body1["data"] != unhx(warm["body"])
+                                          or body1["lost"] != ["ResponseDone"] or body1.get("order")):
+            warm_bad.append("body1=%d:%s:%s:%s" % (body1["made"], hx(body1["data"]), ";".join(body1["lost"]),
+                                                  ",".join(body1.get("order", []))))
+        if at != "after" and "d" not in holder:
+            warm_bad.append("second-request-never-triggered")
+        if at == "after" and (proto._state != "QUIESCENT" or len(quiet) != 1):
+            warm_bad.append("not-quiescent=%s/%d" % (proto._state, len(quiet)))
+    issue()
+    d = holder["d"]
     for i, ev in enumerate(c["events"]):
         try:
             k = ev[0]
             if k == "data":
-                proto.dataReceived(unhx(ev[1]))
+                if hold:
+                    transport.feed(unhx(ev[1]))
+                else:
+                    proto.dataReceived(unhx(ev[1]))
             elif k == "lost":
+                if hold:
+                    del transport.pending[:]
                 proto.connectionLost(Failure(ConnectionDone() if ev[1] == "done" else ConnectionLost()))
             elif k == "deliver":
                 deliver()
@@ -206,14 +358,19 @@ def _drive(c):
     return {"state": proto._state, "fires": fires, "body": body, "excs": excs, "quiet": len(quiet),
             "disc": transport.disconnecting, "abrt": transport.disconnected, "prod": transport.producerState,
             "stopped": producer.stopped if producer else 0, "has_resp": "resp" in holder,
-            "delivered": bool(holder.get("delivered"))}
+            "delivered": bool(holder.get("delivered")), "warm_bad": warm_bad,
+            "fed": transport.fed if hold else None}
 
 
 def _show(o):
     b = o["body"]
     return ("state=%s fires=%s body=%d:%s:%s exc=%s q=%d disc=%d abrt=%d prod=%s stopw=%d" % (
         o["state"], ";".join(o["fires"]) or "-", b["made"], hx(b["data"]), ";".join(b["lost"]) or "-",
-        ";".join(o["excs"]) or "-", o["quiet"], int(o["disc"]), int(o["abrt"]), o["prod"], o["stopped"]))
+        ";".join(o["excs"]) or "-", o["quiet"], int(o["disc"]), int(o["abrt"]), o["prod"], o["stopped"])
+        # the following fields appear only when something is wrong / in oracle-only modes (the model line has none)
+        + (" order=BAD(%s)" % ",".join(b["order"]) if b.get("order") else "")
+        + (" warm=BAD(%s)" % ",".join(o["warm_bad"]) if o["warm_bad"] else "")
+        + (" fed=%d" % o["fed"] if o["fed"] is not None else ""))
 
 
 _quiet = []
@@ -237,8 +394,14 @@ def run_impl(c):
 _EV = {"deliver": "v", "written": "w", "writeFailed": "f", "abort": "a", "cancel": "c"}
 
 
+_SYNC = {"raise": "f", "raise-base": "f", "failed": "f", "done": "w"}
+
+
 def model_line(c):
     evs = []
+    if c.get("sync"):
+        # the request body producer finished/failed inside startProducing(): as if the first event were written/failed
+        evs.append(_SYNC[c["sync"]])
     for ev in c["events"]:
         if ev[0] == "data":
             evs.append("d:" + ev[1])
@@ -246,7 +409,15 @@ def model_line(c):
             evs.append("l:" + ev[1])
         else:
             evs.append(_EV[ev[0]])
-    return "run %d %d %d %s %s" % (c["head"], c["persistent"], c["async"], c["deliver"], ",".join(evs) or "none")
+    if c.get("resume"):
+        # through the holding transport (delivers from inside resumeProducing()); not combined with the other modes
+        return "runh %d %d %d %s %s" % (c["head"], c["persistent"], bool(c["async"]), c["deliver"], ",".join(evs) or "none")
+    if c.get("qraise"):
+        # the quiescent callback raises (inside or outside `Exception`: `failuresHandled` treats both alike)
+        return "runq %d %d %d %s 1 %s" % (c["head"], c["persistent"], bool(c["async"] or c.get("sync")), c["deliver"],
+                                          ",".join(evs) or "none")
+    return "run %d %d %d %s %s" % (c["head"], c["persistent"], bool(c["async"] or c.get("sync")), c["deliver"],
+                                   ",".join(evs) or "none")
 
 
 # ------------------------------------------------------------------------------------------------
@@ -254,8 +425,11 @@ def model_line(c):
 
 CRLF = b"\r\n"
 BODY_ALPHA = [b"a", b"b", b"\r", b"\n", b"\r\n", b"0", b"HTTP/1.1 200 OK\r\n\r\n", b"\x00", b"\xff", b"5\r\n", b";"]
-NAMES = [b"X-A", b"Server", b"content-type", b"ETag", b"x-b.c_d", b"Keep-Alive", b"TE", b"Upgrade"]
-VALUES = [b"v", b"", b"text/html; charset=utf-8", b"a, b", b"  padded \t", b"close", b"chunked", b"\xe9t\xe9", b"7"]
+NAMES = [b"X-A", b"Server", b"content-type", b"ETag", b"x-b.c_d", b"Keep-Alive", b"TE", b"Upgrade", b"Date", b"Location"]
+VALUES = [b"v", b"", b"text/html; charset=utf-8", b"a, b", b"  padded \t", b"close", b"chunked", b"\xe9t\xe9", b"7",
+          b"Mon, 01 Jan 2024 10:00:00 GMT", b"http://h:8080/p?q=1:2", b":", b"a:b::", b"W/\"x:y\""]
+INTERIM = [b"HTTP/1.1 100 Continue", b"HTTP/1.1 103 Early Hints", b"HTTP/1.0 199", b"HTTP/1.1 100 ",
+           b"HTTP/1.1 101 Switching Protocols", b"HTTP/1.1 102 Processing", b"HTTP/1.1 101", b"HTTP/1.1 150 x:y"]
 
 
 def _mixcase(rng, b):
@@ -292,10 +466,11 @@ def gen_response(rng, head, big=False):
     eol = rng.choice([CRLF, CRLF, CRLF, b"\n"])
     wire = b""
     cls = []
-    for _ in range(rng.choice([0, 0, 0, 1, 2])):
-        wire += rng.choice([b"HTTP/1.1 100 Continue", b"HTTP/1.1 103 Early Hints", b"HTTP/1.0 199", b"HTTP/1.1 100 "]) + eol
+    for _ in range(rng.choice([0, 0, 0, 1, 2, 3])):
+        wire += (rng.choice(INTERIM) if rng.random() < 0.8 else b"HTTP/1.1 1%02d I" % rng.randint(0, 99)) + eol
         if rng.random() < 0.4:
-            wire += rng.choice([b"Link: </x>", b"Content-Length: 5", b"Transfer-Encoding: chunked", b"X:\ty"]) + eol
+            wire += rng.choice([b"Link: </x>", b"Content-Length: 5", b"Transfer-Encoding: chunked", b"X:\ty",
+                                b"Upgrade: h2c", b"Date: Mon, 01 Jan 2024 10:00:00 GMT", b"Connection: Upgrade"]) + eol
         wire += eol
         cls.append("1xx")
     version = rng.choice([b"HTTP/1.1"] * 4 + [b"HTTP/1.0", b"HTTP/2.7", b"ICY/1.1", b"HTTP/01.1_0"])
@@ -434,7 +609,7 @@ def _segment(rng, data, how):
 
 
 def _case(rng, wire, cut, how, *, head=False, persistent=False, asy=False, deliver="now", warm=False, extras=(),
-          reason=None, spec=None, cls="", late=None):
+          reason=None, spec=None, cls="", late=None, sync=None, qraise=None, resume=None):
     """events: the first `cut` bytes of wire in segments, then the loss; `extras` = (event name, position) inserted."""
     evs = [["data", hx(x)] for x in _segment(rng, wire[:cut], how)]
     evs.append(["lost", reason or rng.choice(["done", "lost"])])
@@ -445,6 +620,12 @@ def _case(rng, wire, cut, how, *, head=False, persistent=False, asy=False, deliv
         evs.extend([x] for x in late)
     c = {"head": head, "persistent": persistent, "async": asy, "deliver": deliver, "warm": warm, "events": evs,
          "cls": cls, "how": how}
+    if sync:
+        c["sync"] = sync
+    if qraise:
+        c["qraise"] = qraise
+    if resume:
+        c["resume"] = resume
     if spec is not None:
         c["spec"] = {"headlen": spec["headlen"], "offs": spec["offs"], "total": spec["total"], "framing": spec["framing"],
                      "body": hx(spec["body"]), "nobody": spec["nobody"], "cut": cut}
@@ -453,6 +634,27 @@ def _case(rng, wire, cut, how, *, head=False, persistent=False, asy=False, deliv
 
 def H(b):
     return ["data", hx(b)]
+
+
+def gen_warm(rng, at=None):
+    """an earlier, complete exchange on the same persistent connection, and where the request of the case is issued:
+    "after" it, from the first request's "callback" (bodiless first response: the connection is QUIESCENT by then), or
+    from the first body consumer's connectionLost ("body-lost": what readBody(...).addCallback(next request) does)"""
+    while True:
+        head1 = rng.random() < 0.2
+        sp = gen_response(rng, head1)
+        parts = sp["cls"].split("+")
+        if sp["total"] is None or "conn" in parts or "extra" in parts:
+            continue
+        break
+    wire = sp["wire"][:sp["total"]]
+    if at is None:
+        at = rng.choice(["after", "body-lost", "body-lost", "callback" if sp["nobody"] else "body-lost"])
+    if at == "callback" and not sp["nobody"]:
+        at = "body-lost"
+    segs = [x for x in _segment(rng, wire, rng.choice(["whole", "whole", "bytes", "random"])) if x]
+    return {"head": head1, "at": at, "segs": [hx(x) for x in segs], "body": hx(sp["body"]),
+            "deliver": True if at == "body-lost" else rng.random() < 0.6, "cls": sp["cls"].split("+")[0]}
 
 
 def corpus():
@@ -486,6 +688,24 @@ def corpus():
         c([H(b"HTTP/1.1 200 OK\r\nContent-"), ["cancel"], L], asy=True),
         c([H(b"HTTP/1.1 200 OK\r\nContent-Length: 3\r\n\r\na"), ["abort"], H(b"bc"), L]),
         c([H(b"HTTP/1.1 200 OK\r\nContent-Length: 3\r\n\r\nabc"), L], head=True),
+        # classes added by the mutation audit (harness/mutants/C23)
+        c([H(b"HTTP/1.1 200 OK\r\nDate: Mon, 01 Jan 2024 10:00:00 GMT\r\nContent-Length: 2\r\n\r\nok"), L], cls="colon-in-value"),
+        c([H(b"HTTP/1.1 101 Switching Protocols\r\nUpgrade: x\r\n\r\nHTTP/1.1 200 OK\r\nContent-Length: 2\r\n\r\nok"), L], cls="interim-101"),
+        dict(c([H(b"HTTP/1.1 200 OK\r\nContent-Length: 0\r\n\r\n"), L], asy=True, cls="producer-raises-base"), sync="raise-base"),
+        dict(c([H(b"HTTP/1.1 200 OK\r\nContent-Length: 0\r\n\r\n"), L], asy=True, cls="producer-raises"), sync="raise"),
+        dict(c([H(b"HTTP/1.1 200 OK\r\nContent-Length: 2\r\n\r\nok"), L], asy=True, cls="producer-done-at-once"), sync="done"),
+        dict(c([H(b"HTTP/1.1 204 No Content\r\n\r\n"), L], persistent=True, cls="chain-body-lost"),
+             warm={"head": False, "at": "body-lost", "segs": [hx(b"HTTP/1.1 200 OK\r\nContent-Length: 2\r\n\r\nok")],
+                   "body": hx(b"ok"), "deliver": True, "cls": "cl"}),
+        dict(c([H(b"HTTP/1.1 200 OK\r\nTransfer-Encoding: chunked\r\n\r\n2\r\nok\r\n0\r\n\r\n"), L], persistent=True, cls="chain-callback"),
+             warm={"head": True, "at": "callback", "segs": [hx(b"HTTP/1.1 200 OK\r\nContent-Length: 2\r\n\r\n")],
+                   "body": "-", "deliver": True, "cls": "cl"}),
+        dict(c([H(b"HTTP/1.1 204 No Content\r\n\r\n"), L], persistent=True, cls="quiescent-callback-raises"), qraise="exc"),
+        dict(c([H(b"HTTP/1.1 200 OK\r\nContent-Length: 2\r\n\r\nok"), L], persistent=True, cls="quiescent-callback-raises"), qraise="base"),
+        dict(c([H(b"HTTP/1.1 200 OK\r\nContent-Length: 4\r\n\r\nab"), H(b"cd"), ["deliver"], L], deliver="event", cls="resume-delivers"),
+             resume="sync"),
+        dict(c([H(b"HTTP/1.1 200 OK\r\nContent-Length: 4\r\n\r\nab"), H(b"c"), ["deliver"], H(b"d"), L], deliver="event",
+               persistent=True, cls="resume-delivers"), resume="sync"),
     ]
 
 
@@ -520,7 +740,76 @@ def generate(rng, tier):
             late = [rng.choice(["deliver", "written", "writeFailed", "abort", "cancel"])]
         yield _case(rng, w, cut, rng.choice(["whole", "bytes", "random", "random"]), head=head, persistent=rng.random() < 0.5,
                     asy=asy, deliver=rng.choice(["now", "event", "never"]), warm=rng.random() < 0.1, extras=extras,
-                    spec=sp, cls=sp["cls"], late=late)
+                    spec=sp, cls=sp["cls"], late=late, sync="done" if asy and rng.random() < 0.05 else None)
+    # 2b. the request body producer finishes / fails / raises INSIDE startProducing() (incl. outside `Exception`)
+    for i in range(120 if quick else 3000):
+        head = rng.random() < 0.15
+        sp = gen_response(rng, head)
+        w = sp["wire"]
+        cut = rng.choice([len(w), len(w), rng.randint(0, len(w)), sp["headlen"]])
+        extras = [("deliver", rng.randint(0, 8))]
+        if rng.random() < 0.3:
+            extras.append((rng.choice(["written", "writeFailed", "abort", "cancel"]), rng.randint(0, 6)))
+        yield _case(rng, w, cut, rng.choice(["whole", "bytes", "random"]), head=head, persistent=rng.random() < 0.5, asy=True,
+                    deliver=rng.choice(["now", "event", "never"]), extras=extras, spec=sp, cls=sp["cls"],
+                    sync=("raise", "raise-base", "failed", "done", "done")[i % 5])
+    # 2c. a chain of requests on one persistent connection: the request of the case is issued after an earlier exchange,
+    #     or RE-ENTRANTLY from the earlier request's callback / the earlier body consumer's connectionLost
+    for i in range(260 if quick else 8000):
+        head = rng.random() < 0.15
+        sp = gen_response(rng, head, big=rng.random() < 0.05)
+        w = sp["wire"]
+        cut = rng.choice([len(w), len(w), len(w), rng.randint(0, len(w)), sp["headlen"]])
+        asy = rng.random() < 0.25
+        extras = [("deliver", rng.randint(0, 8))]
+        if asy and rng.random() < 0.8:
+            extras.append((rng.choice(["written", "written", "writeFailed"]), rng.randint(0, 6)))
+        if rng.random() < 0.15:
+            extras.append((rng.choice(["abort", "cancel"]), rng.randint(0, 6)))
+        yield _case(rng, w, cut, rng.choice(["whole", "bytes", "random", "random"]), head=head, persistent=rng.random() < 0.7,
+                    asy=asy, deliver=rng.choice(["now", "now", "event", "never"]), warm=gen_warm(rng), extras=extras,
+                    spec=sp, cls=sp["cls"], late=["deliver"] if rng.random() < 0.2 else None)
+    # 2d. the quiescent callback raises (inside or outside `Exception`)
+    for i in range(100 if quick else 2500):
+        head = rng.random() < 0.2
+        sp = gen_response(rng, head)
+        w = sp["wire"]
+        cut = rng.choice([len(w), len(w), len(w), rng.randint(0, len(w))])
+        asy = rng.random() < 0.2
+        extras = [("deliver", rng.randint(0, 8))]
+        if asy:
+            extras.append((rng.choice(["written", "written", "writeFailed"]), rng.randint(0, 6)))
+        if rng.random() < 0.15:
+            extras.append((rng.choice(["abort", "cancel"]), rng.randint(0, 6)))
+        yield _case(rng, w, cut, rng.choice(["whole", "bytes", "random"]), head=head, persistent=rng.random() < 0.9,
+                    asy=asy, deliver=rng.choice(["now", "now", "event", "never"]), extras=extras,
+                    spec=sp, cls=sp["cls"], late=["deliver"] if rng.random() < 0.3 else None, qraise=("exc", "base")[i % 2])
+    # 2e. a transport that reads nothing while paused and hands over what arrived meanwhile from inside
+    #     resumeProducing(): deliverBody() placed anywhere after the head, also in the callback
+    for i in range(220 if quick else 6000):
+        head = rng.random() < 0.1
+        sp = gen_response(rng, head, big=rng.random() < 0.05)
+        w = sp["wire"]
+        cut = rng.choice([len(w), len(w), len(w), rng.randint(0, len(w))])
+        how = rng.choice(["bytes", "random", "random"])
+        asy = rng.random() < 0.15
+        c = _case(rng, w, cut, how, head=head, persistent=rng.random() < 0.5, asy=asy,
+                  deliver=rng.choice(["event", "event", "event", "now", "never"]), spec=sp, cls=sp["cls"],
+                  extras=[(rng.choice(["written", "written", "writeFailed"]), rng.randint(0, 6))] if asy else [],
+                  late=["deliver"] if rng.random() < 0.3 else None, resume="sync")
+        if c["deliver"] == "event":
+            # somewhere after the event that completes the head
+            n, k = 0, len(c["events"])
+            for j, e in enumerate(c["events"]):
+                if e[0] == "data":
+                    n += len(unhx(e[1]))
+                    if n >= sp["headlen"]:
+                        k = j + 1
+                        break
+            c["events"].insert(rng.randint(k, len(c["events"])) if rng.random() < 0.9 else rng.randint(0, k), ["deliver"])
+        if rng.random() < 0.15:
+            c["events"].insert(rng.randint(0, len(c["events"])), ["abort"])
+        yield c
     # 3. malformed streams: every truncation point (quick: a rotating third of them), whole and byte-wise
     for j, m in enumerate(MALFORMED):
         for cut in range(len(m) + 1):
@@ -567,7 +856,8 @@ def _parse(out):
     d = dict(f.split("=", 1) for f in out.split(" "))
     made, data, lost = d["body"].split(":", 2)
     return {"state": d["state"], "fires": [] if d["fires"] == "-" else d["fires"].split(";"), "made": int(made),
-            "data": unhx(data), "lost": [] if lost == "-" else lost.split(";"), "exc": [] if d["exc"] == "-" else d["exc"].split(";")}
+            "data": unhx(data), "lost": [] if lost == "-" else lost.split(";"), "exc": [] if d["exc"] == "-" else d["exc"].split(";"),
+            "order": d.get("order"), "warm": d.get("warm"), "fed": int(d["fed"]) if "fed" in d else None}
 
 
 def oracle(c, out):
@@ -577,8 +867,16 @@ def oracle(c, out):
     kinds = [e[0] for e in c["events"]]
     lost_at = kinds.index("lost") if "lost" in kinds else None
     recv = b"".join(unhx(e[1]) for e in (c["events"] if lost_at is None else c["events"][:lost_at]) if e[0] == "data")
-    plain = not c["async"] and "abort" not in kinds and "cancel" not in kinds
-    tag_ = "" if plain else ("-transmitting" if c["async"] else "") + ("-abort" if "abort" in kinds else "") + ("-cancel" if "cancel" in kinds else "")
+    if c.get("resume") == "sync":
+        # the holding transport hands the protocol a prefix of what the script sent (the rest was still unread when
+        # the connection went away): the harness says how long the prefix is
+        recv = recv[:o["fed"]]
+    # the request counts as written before the first response byte when there is no body producer or it finished at once
+    asy = (c["async"] or bool(c.get("sync"))) and c.get("sync") != "done"
+    plain = not asy and "abort" not in kinds and "cancel" not in kinds
+    tag_ = "" if plain else ("-transmitting" if asy else "") + ("-abort" if "abort" in kinds else "") + ("-cancel" if "cancel" in kinds else "")
+    if o["warm"]:
+        return {"key": "earlier-exchange-disturbed", "detail": f"the earlier request on this connection went wrong: {o['warm']}"}
     if len(o["fires"]) > 1:
         return {"key": "fires-twice" + tag_, "detail": f"request Deferred fired {o['fires']}"}
     if lost_at is not None and len(o["fires"]) == 0:
@@ -589,6 +887,9 @@ def oracle(c, out):
         return {"key": "body-protocol-twice", "detail": f"makeConnection x{o['made']}, connectionLost {o['lost']}"}
     if o["made"] == 0 and (o["data"] or o["lost"]):
         return {"key": "body-before-connect", "detail": out}
+    if o["order"]:
+        return {"key": "body-callback-order", "detail": "the body consumer must see makeConnection, dataReceived*, connectionLost "
+                f"in this order and nothing after connectionLost; saw {o['order']}"}
     if o["made"] == 1 and o["fires"] != ["response"]:
         return {"key": "body-without-response", "detail": out}
     if o["made"] == 1 and lost_at is not None and len(o["lost"]) != 1:
@@ -641,7 +942,10 @@ def tag(c, out):
     nseg = sum(1 for k in kinds if k == "data")
     fire = o["fires"][0].split("[")[0] + ("[" + o["fires"][0].split("[")[1] if "[" in o["fires"][0] else "") if o["fires"] else "-"
     return "|".join([c.get("cls", "?"), where, c.get("how", "?"), "n%d" % min(nseg, 3),
-                     ("H" if c["head"] else "G") + ("p" if c["persistent"] else "") + ("a" if c["async"] else "") + ("w" if c.get("warm") else ""),
+                     ("H" if c["head"] else "G") + ("p" if c["persistent"] else "") + ("a" if c["async"] else "") +
+                     ("w" if c.get("warm") is True else "w:%s:%s:%d" % (c["warm"]["at"], c["warm"].get("cls", "?"), min(len(c["warm"]["segs"]), 3))
+                      if c.get("warm") else "") + (":s-" + c["sync"] if c.get("sync") else "") +
+                     (":q-" + c["qraise"] if c.get("qraise") else "") + (":r-" + c["resume"] if c.get("resume") else ""),
                      c["deliver"], ",".join(k for k in kinds if k != "data"), fire, o["lost"][0] if o["lost"] else "-", o["state"]])
 
 
